@@ -106,6 +106,11 @@ class Suite:
 
     def contract_case(self, contract, args, key=None, observe=True, nontrivial=True):
         """evaluate a sidecar contract at run time on the real function"""
+        if getattr(self, "poisoned", False) or (self.reported >= self.max_reports * 4 and self.failures > 200):
+            # the suite has long since decided: stop feeding values that a broken function may have corrupted (operands mutated
+            # in place keep growing from case to case and can make the rest of the enumeration explode)
+            self.evaluations += 1
+            return False
         desc = {k: describe(v) for k, v in args.items()}
         self.case(key if key is not None else tuple(sorted(desc.items())), nontrivial, sample=desc)
         if self.evaluations % 2 == 0:
@@ -117,6 +122,10 @@ class Suite:
         if not ok:
             self.fail(f"{contract.prop}.{contract.qualname}.{clause}", dict(function=contract.key, **desc), detail,
                       replay={"kind": "contract", "contract": contract.key, "args": desc})
+            if clause == "frame":
+                # an operand was modified in place: the values shared by the following cases of this suite can no longer be trusted
+                # (and may keep growing from case to case) - the suite has its verdict and stops here
+                self.poisoned = True
         return ok
 
     def done(self):
